@@ -306,11 +306,11 @@ def debug_region_effects(db, files):
                     s = [t["target"]]
             return [x for x in s if isinstance(x, int)]
 
-        def reach(i):
+        def reach(i, stop=None):
             seen, st = set(), [i]
             while st:
                 x = st.pop()
-                if x in seen or x >= len(blocks):
+                if x in seen or x >= len(blocks) or x == stop:
                     continue
                 seen.add(x)
                 st.extend(succ(x))
@@ -324,7 +324,8 @@ def debug_region_effects(db, files):
                 continue
             if not t["targets"] or not isinstance(t["otherwise"], int):
                 continue
-            region = reach(t["otherwise"]) - reach(t["targets"][0][1])
+            # inside a loop the release edge reaches the assertion again through the back edge: stop at the test itself
+            region = reach(t["otherwise"], i) - reach(t["targets"][0][1], i)
             for j in sorted(region):
                 for s in blocks[j]["stmts"]:
                     if s.get("k") != "assign":
@@ -482,7 +483,11 @@ def main(argv):
             lines.append("VIOLATION property=%s replay=%s" % (pid, vp))
             print("  [%s] %s at %s in %s: %s%s" % (o.rule, o.key, o.site, o.fn, o.detail[:700],
                                                   (" (+%d more instances)" % (len(os_) - 1)) if len(os_) > 1 else ""))
+    printed = set()
     for o, k in known_hit:
+        if id(k) in printed:      # one line per listed finding, however many instances (n = 2, 3, 4 ...) show it
+            continue
+        printed.add(id(k))
         print("KNOWN-FINDING: property=%s %s [%s %s in %s]" % (pid, k.get("what", o.detail), o.rule, o.key, o.fn))
     seen_inc = set()
     for o in inc:
